@@ -37,6 +37,7 @@
 #endif
 // element flavour: 0 NT nothrow-move copyable | 1 TM throwing-move copyable | 2 MO move-only nothrow
 //                  3 MOT move-only throwing | 4 CO copy-only | 5 TRIV trivially copyable struct | 6 INT
+//                  7 MA nothrow move-ASSIGN but throwing move-CTOR | 8 MC throwing move-assign, nothrow move-ctor (copyable)
 #ifndef CFG_ELEM
 #define CFG_ELEM 0
 #endif
@@ -285,10 +286,12 @@ static bool all_zones_ok ()
 // ------------------------------------------------------------------ element types
 enum { MAGIC_ALIVE = 0x5A11FE01, MAGIC_DEAD = 0x0DEAD0DE };
 
-#define ELEM_NOTHROW_MOVE (CFG_ELEM == 0 || CFG_ELEM == 2 || CFG_ELEM >= 5)
+#define ELEM_NOTHROW_MOVE_CTOR   (CFG_ELEM == 0 || CFG_ELEM == 2 || CFG_ELEM == 5 || CFG_ELEM == 6 || CFG_ELEM == 8)
+#define ELEM_NOTHROW_MOVE_ASSIGN (CFG_ELEM == 0 || CFG_ELEM == 2 || CFG_ELEM == 5 || CFG_ELEM == 6 || CFG_ELEM == 7)
+#define ELEM_NOTHROW_MOVE (ELEM_NOTHROW_MOVE_CTOR && ELEM_NOTHROW_MOVE_ASSIGN)
 #define ELEM_COPYABLE     (CFG_ELEM != 2 && CFG_ELEM != 3)
 #define ELEM_HAS_MOVE     (CFG_ELEM != 4)
-#define ELEM_TRACKED      (CFG_ELEM <= 4)
+#define ELEM_TRACKED      (CFG_ELEM <= 4 || CFG_ELEM >= 7)
 
 struct Tracked
 {
@@ -331,9 +334,9 @@ struct Tracked
 #endif
 
 #if ELEM_HAS_MOVE
-  Tracked (Tracked &&o) noexcept (ELEM_NOTHROW_MOVE) : v (o.v), mf (o.mf), magic (0)
+  Tracked (Tracked &&o) noexcept (ELEM_NOTHROW_MOVE_CTOR) : v (o.v), mf (o.mf), magic (0)
   {
-#if ! ELEM_NOTHROW_MOVE
+#if ! ELEM_NOTHROW_MOVE_CTOR
     g_inj.tick (FK_MOVE);
 #endif
     magic = MAGIC_ALIVE;
@@ -341,9 +344,9 @@ struct Tracked
     o.mf = 1;
   }
 
-  Tracked &operator= (Tracked &&o) noexcept (ELEM_NOTHROW_MOVE)
+  Tracked &operator= (Tracked &&o) noexcept (ELEM_NOTHROW_MOVE_ASSIGN)
   {
-#if ! ELEM_NOTHROW_MOVE
+#if ! ELEM_NOTHROW_MOVE_ASSIGN
     g_inj.tick (FK_MASSIGN);
 #endif
     obj_event (2, this, 2, &o, o.magic != MAGIC_ALIVE || magic != MAGIC_ALIVE);
@@ -388,7 +391,7 @@ inline bool operator<= (const Triv &a, const Triv &b) { return a.v <= b.v; }
 inline bool operator>  (const Triv &a, const Triv &b) { return a.v >  b.v; }
 inline bool operator>= (const Triv &a, const Triv &b) { return a.v >= b.v; }
 
-#if CFG_ELEM <= 4
+#if CFG_ELEM <= 4 || CFG_ELEM >= 7
 typedef Tracked Elem;
 static inline int  val_of (const Elem &e) { return e.v; }
 static inline int  mf_of (const Elem &e) { return e.mf; }
@@ -407,7 +410,7 @@ static inline Elem make_elem (int v) { return v; }
 
 static const char *elem_name ()
 {
-  static const char *n[] = { "NT", "TM", "MO", "MOT", "CO", "TRIV", "INT" };
+  static const char *n[] = { "NT", "TM", "MO", "MOT", "CO", "TRIV", "INT", "MA", "MC" };
   return n[CFG_ELEM];
 }
 
@@ -1306,9 +1309,17 @@ static void bin_swap (VD &d, VD &s, int mode, std::true_type)
   else { using std::swap; swap (d, s); }
 }
 
+#if CFG_VECTOR
+template <typename VD, typename VS> static void bin_assign_copy (VD &d, const VS &s, std::false_type) { d.assign (s.begin (), s.end ()); }
+#else
 template <typename VD, typename VS> static void bin_assign_copy (VD &d, const VS &s, std::false_type) { d.assign (s); }
+#endif
 template <typename VD> static void bin_assign_copy (VD &d, const VD &s, std::true_type) { d = s; }
+#if CFG_VECTOR
+template <typename VD, typename VS> static void bin_assign_move (VD &d, VS &s, std::false_type) { d.assign (std::make_move_iterator (s.begin ()), std::make_move_iterator (s.end ())); }
+#else
 template <typename VD, typename VS> static void bin_assign_move (VD &d, VS &s, std::false_type) { d.assign (std::move (s)); }
+#endif
 template <typename VD> static void bin_assign_move (VD &d, VD &s, std::true_type) { d = std::move (s); }
 
 template <typename VD, typename VS>
@@ -1339,7 +1350,9 @@ static void bin_copy_family (VD &d, VS &s, const Op &op, OpResult &res, Bool<tru
   typedef std::integral_constant<bool, std::is_same<VD, VS>::value> same_t;
   ARM ();
   if (! std::strcmp (nm, "assign_copy"))      bin_assign_copy (d, s, same_t ());
+#if ! CFG_VECTOR
   else if (! std::strcmp (nm, "assign_copy_f")) d.assign (static_cast<const VS &> (s));     // assign() spelling
+#endif
 #if ! CFG_VECTOR
   else if (! std::strcmp (nm, "append_copy")) d.append (static_cast<const VS &> (s));
 #else
@@ -1733,10 +1746,11 @@ static void print_cfg ()
 #endif
   fprintf (g_out,
            "{\"t\":\"cfg\",\"name\":\"%s\",\"na\":%d,\"nb\":%d,\"elem\":\"%s\",\"nothrowMove\":%s,\"copyable\":%s,\"hasMove\":%s,"
-           "\"tracked\":%s,\"isStd\":%s,\"pocca\":%s,\"pocma\":%s,\"pocs\":%s,\"ae\":%s,\"construct\":%s,\"sizet\":%d,"
+           "\"nothrowMoveCtor\":%s,\"nothrowMoveAssign\":%s,\"tracked\":%s,\"isStd\":%s,\"pocca\":%s,\"pocma\":%s,\"pocs\":%s,\"ae\":%s,\"construct\":%s,\"sizet\":%d,"
            "\"max\":%ld,\"soccc\":%d,\"std\":%ld,\"compiler\":\"%s\",\"concepts\":%d,\"vector\":%s,\"szA\":%zu,\"szB\":%zu}\n",
            CFG_NAME, CFG_NA, CFG_NB, elem_name (), ELEM_NOTHROW_MOVE ? "true" : "false", ELEM_COPYABLE ? "true" : "false",
-           ELEM_HAS_MOVE ? "true" : "false", ELEM_TRACKED ? "true" : "false", CFG_ALLOC == 0 ? "true" : "false",
+           ELEM_HAS_MOVE ? "true" : "false", ELEM_NOTHROW_MOVE_CTOR ? "true" : "false", ELEM_NOTHROW_MOVE_ASSIGN ? "true" : "false",
+           ELEM_TRACKED ? "true" : "false", CFG_ALLOC == 0 ? "true" : "false",
            CFG_POCCA ? "true" : "false", CFG_POCMA ? "true" : "false", CFG_POCS ? "true" : "false",
            CFG_AE ? "true" : "false", CFG_CONSTRUCT ? "true" : "false", CFG_SIZET, natural_max, CFG_SOCCC,
            static_cast<long> (__cplusplus), comp, concepts, CFG_VECTOR ? "true" : "false", sizeof (VA), sizeof (VB));
